@@ -98,7 +98,9 @@ def extra_checks(C, entries):
         r = e['result']
         for out in r.get('results', []):
             if out.get('unreadable'):
-                C.cov['tie']['import programs'] = f"correspondence-only (extractor: {out['unreadable'][:2]})"
+                # the extractor is fail-closed: a module it cannot read means the model is not tied to this package
+                C.cov['tie']['import programs'] = f"NOT extracted (extractor: {out['unreadable'][:2]})"
+                C.broken.append(dict(kind='correspondence', stream='import-model', msg=f"tree {e['name']}: import program not extractable: {out['unreadable'][:2]}"))
                 continue
             if 'program' not in out:
                 continue
@@ -129,8 +131,8 @@ def run(tier):
     C = Check('C20', tier)
     C.prove('Properties/C20.v')
     C.cov['tie']['src/eolib/**/__init__.py + generated package'] = ('correspondence-only (CPython\'s import system is the oracle): fresh interpreters, each importing a different eolib module first, '
-                                                                   'dump module identity along every dotted path and object identity of every public name; the import programs of the static '
-                                                                   '__init__ files are re-extracted from the source on every run and must equal the skeleton the theorems are about')
+                                                                   'dump module identity along every dotted path and object identity of every public name; the import programs of every eolib module '
+                                                                   '(static and generated) are re-extracted from the source on every run and evaluated by the model, whose verdicts must equal CPython\'s')
     quick = tier == 'quick'
     trees, rng = build_trees(C, 10 if quick else 120)
     runner = GenRunner(C.scratch, workers=8)
